@@ -554,7 +554,10 @@ def run(ctx):
     bins = {"debug": ctx.harness("debug"), "release": ctx.harness("release")}
     core = core_chunks(bins["debug"])
     if core is None:
-        ctx.corr_broken.append("hook H5: no CS record from the harness")
+        # not even `var q = 1;` runs on a new Vm and yields an H5 record
+        rec = yvlib.run_harness(bins["debug"], ["replmods - " + hx("var q = 1;") + " " + hx("print(q);")], shards=1, quarantine=True)[0]
+        ctx.violation("the first snippets on a new interpreter do not run", input=["var q = 1;", "print(q);"],
+                      expected=["ok", "ok, prints 1"], actual=[str(rec.result), rec.output, rec.crashed])
         return
     if not load_msg_table():
         ctx.corr_broken.append("ReuseSpec.show_msg_table could not be evaluated")
